@@ -13,6 +13,8 @@ pub struct Out {
     pub dist: BTreeMap<String, u64>,
     /// when set, nothing is written; failing oracle names are collected instead (used by the shrinker)
     pub capture: Option<Vec<String>>,
+    /// when set, lines that need the Lean model (classes M, O, LE) are dropped; R lines are kept
+    pub capture_m: bool,
 }
 
 impl Out {
@@ -23,6 +25,7 @@ impl Out {
             samples: BTreeMap::new(),
             dist: BTreeMap::new(),
             capture: None,
+            capture_m: false,
         }
     }
     pub fn emit(&mut self, class: &str, group: &str, impl_out: &str, req: &[&str]) {
@@ -30,6 +33,9 @@ impl Out {
             if class.starts_with("R:") {
                 c.push(req.first().map(|s| s.to_string()).unwrap_or_default());
             }
+            return;
+        }
+        if self.capture_m && !class.starts_with("R:") {
             return;
         }
         let _ = write!(self.w, "{}\t{}\t{}", class, group, impl_out);
